@@ -11,9 +11,12 @@ VALS = [1, 2, None]
 CELLS = list(itertools.product(VALS, repeat=2))
 
 
+TWICE = [False]
+
+
 def run_steps(st, *steps):
     try:
-        return 'ok', core.materialise(core.from_state(st), *steps, via='results_raw')
+        return 'ok', core.materialise(core.from_state(st), *steps, via='results_raw', twice=TWICE[0])
     except core.CaseTimeout:
         raise
     except Exception as e:
@@ -48,7 +51,14 @@ CONDS = {
 
 
 def check(case):
-    return globals()['check_' + case['proc']](case)
+    TWICE[0] = bool(case.get('rerun'))
+    try:
+        v, o, n = globals()['check_' + case['proc']](case)
+    finally:
+        TWICE[0] = False
+    if case.get('rerun'):
+        v = [('rerun-' + sg, 'second execution of the same Flow object: ' + what) for sg, what in v]
+    return v, o, n
 
 
 def common(label, proc, out, other, exp):
@@ -193,6 +203,11 @@ def cases(tier):
                 if len(rows) <= 3:
                     out.append({'proc': 'dedup', 'rows': rows, 'pk': pk, 'twice': True})
                     out.append({'proc': 'dedup', 'rows': rows, 'pk': pk, 'all': True})
+    # the same step objects executed a second time (tables of <=2 rows)
+    for c in list(out):
+        if len(c.get('rows', [])) <= 2 and not c.get('twice') and not c.get('all') and c['proc'] in ('filter', 'dedup') and \
+                c.get('cond', 'eq2') in ('eq2', 'both', 'callable') and c.get('pk', ['a']) in (['a'], ['a', 'b']):
+            out.append(dict(c, rerun=True))
     fieldsets = []
     for n in (2, 3, 4, 5):
         for fs in itertools.combinations(UFIELDS, n):
@@ -204,6 +219,8 @@ def cases(tier):
         for spec in SPECS:
             for nrows in (0, 1, 2, 3):
                 out.append({'proc': 'unpivot', 'fields': fs, 'spec': spec, 'nrows': nrows})
+                if nrows == 2 and len(fs) <= 3:
+                    out.append({'proc': 'unpivot', 'fields': fs, 'spec': spec, 'nrows': nrows, 'rerun': True})
     return out
 
 
